@@ -27,6 +27,10 @@ def sx(x):
 class G:
     def __init__(self, seed):
         self.r = random.Random(seed)
+        self.big_p = 0.12      # fraction of medium-size values (sizes 6..24) among the generated ones
+
+    def big(self):
+        return self.r.random() < self.big_p
 
     def nat(self, hi):
         return self.r.randint(0, hi)
@@ -35,7 +39,11 @@ class G:
         return [self.r.randint(0, hi) for _ in range(n)]
 
     def size(self, hi=4):
-        # favour small sizes, include 0
+        # favour small sizes, include 0; now and then a medium size
+        if hi >= 4 and self.big():
+            return self.r.randint(6, 24)
+        if hi == 3 and self.big():
+            return self.r.randint(4, 9)
         return self.r.choice([0, 0, 1, 1, 2, 2, 3, 3, 4, 5, 6][: hi + 5]) if hi >= 4 else self.r.randint(0, hi)
 
     def ff(self, n=None, t=None):
@@ -56,6 +64,8 @@ class G:
         return [tab, t]
 
     def sizes(self, n, hi=3):
+        if self.big():
+            return [self.r.choice([0, 0, 1, 2, 4, 5, 6]) for _ in range(n)]
         return [self.r.choice([0, 1, 1, 2, 2, 3][: hi + 3]) for _ in range(n)]
 
     def icf(self, nseg=None, tgt=None):
@@ -79,10 +89,12 @@ class G:
         return [[sz, sum(sz) + 1], vals]
 
     def hg(self, nn=None, ne=None, labels=2, elabels=3, maxar=3):
+        if self.big():
+            labels, maxar = max(labels, 4), max(maxar, 6)
         if nn is None:
             nn = self.size()
         if ne is None:
-            ne = self.size()
+            ne = min(self.size(), 12)
         w = [self.r.randrange(labels) for _ in range(nn)]
         x = [self.r.randrange(elabels) for _ in range(ne)]
 
@@ -125,6 +137,10 @@ class G:
         return [[src, n], [t[0], n], h]
 
     def lhg(self, nn=None, ne=None, nq=None, labels=2, elabels=3, maxar=3, consistent=True):
+        if self.big():
+            labels, maxar = max(labels, 4), max(maxar, 5)
+            if nq is None:
+                nq = self.r.choice([0, 4, 8, 12])
         if nn is None:
             nn = self.size()
         if ne is None:
